@@ -799,12 +799,15 @@ class from_iterable(Source):
         super().__init__(**kwargs)
 
     async def run(self):
-        for x in self._iterable:
-            if self.stopped:
+        iterator = iter(self._iterable)
+        # look at ``stopped`` before taking an item, not after: an item that
+        # has been taken from an iterator and is then dropped is lost for good
+        while not self.stopped:
+            try:
+                x = next(iterator)
+            except StopIteration:
                 break
             await asyncio.gather(*self._emit(x))
-            if self.stopped:
-                break
         self.stopped = True
 
 
